@@ -238,6 +238,7 @@ impl Memo {
             LogicalOperator::Join(join) => {
                 std::mem::discriminant(&join.join_type).hash(hasher);
                 format!("{:?}", join.condition).hash(hasher);
+                join.commuted.hash(hasher);
             }
             LogicalOperator::Aggregate(agg) => {
                 format!("{:?}", agg.group_by).hash(hasher);
